@@ -20,7 +20,7 @@ def readsOut (E : Bytes → Bytes) : AesHkdf → List Nat → List String
   | _, [] => []
   | s, n :: ns =>
     match s.read E n with
-    | none => ["err"]
+    | none => "err" :: readsOut E s ns      -- a refused read leaves the reader where it was
     | some (b, s') => hex b :: readsOut E s' ns
 
 def isHmac (alg : Int) : Bool := hmacKeySize alg != 0
